@@ -45,7 +45,7 @@ CLAIMED = {
    "Seeded search over (inbound default, outbound default, timeout header incl. 0, huge, overflowing, non-numeric, handler duration) on a constant-latency link so instants are exact to the millisecond: model deadline per side = min(default, parsed header); the handler is dropped exactly at the server deadline with a RequestTimeout reply or the caller errors exactly at its deadline; cases within 2L+quantum of a boundary are skipped; the real Builder::start wiring is what is exercised.",
    NET_NOTE, TECH),
  "C12": ("exploration", "DESIGN.md §8 C12",
-   "Seeded search over abandonment instants (before the stream opens, mid request, while the handler runs, mid response, never; by dropping the future or by the outbound timeout) across 10-400 calls against stream limits 2-8 with sibling calls: every handler of an abandoned call is dropped, within 4L+5 ms (one-way latency + pacing) on a constant-latency link without bulk data or loss and within idle timeout otherwise; afterwards no handler is in flight and limit-many fresh calls succeed at once; siblings get their own responses.",
+   "Seeded search over abandonment instants (before the stream opens, mid request, while the handler runs, mid response, never; by dropping the future or by the outbound timeout) across 10-400 calls against stream limits 2-8 with sibling calls: every handler of an abandoned call is dropped, within 8L+10 ms (one-way latency + congestion-window and pacing delay) on a constant-latency link without bulk data or loss and within idle timeout otherwise; afterwards no handler is in flight and limit-many fresh calls succeed at once; siblings get their own responses.",
    NET_NOTE, TECH),
  "C13": ("exploration", "DESIGN.md §8 C13",
    "Seeded search over known-peer tables, interval/backoff/cap configurations and reachability schedules spanning minutes of virtual time; connection attempts are observed on the fabric (first QUIC Initial with a fresh 20-byte destination id): never to self, Allowed/Never peers, connected or already-dialed peers; after k consecutive failures no earlier than min(max, k*step) after the noticing tick; addresses rotate in order; the in-flight cap holds; reachable High peers are connected within the stated bounds.",
